@@ -72,7 +72,7 @@ func genProm(rt *rapid.T) promCase {
 	var tsPool []int64 // candidate sample timestamps (ms), ascending
 	switch c.Kind {
 	case 0:
-		c.StepMs = rapid.SampledFrom([]int64{1, 100, 700, 1000, 1500, 7000, 15000, 30000, 60000, 300000, 400000}).Draw(rt, "step")
+		c.StepMs = rapid.SampledFrom([]int64{1, 10, 50, 125, 100, 700, 1000, 1500, 7000, 15000, 30000, 60000, 300000, 400000}).Draw(rt, "step")
 		c.StartS = base
 		slots := int64(rapid.IntRange(0, 200).Draw(rt, "slots"))
 		c.EndS = (c.StartS + slots*c.StepMs/1000 + 14) / 15 * 15
@@ -379,6 +379,14 @@ func predProm(c promCase, o *evid.Obs) error {
 	}
 	if c.Kind == 0 && c.StepMs%1000 != 0 {
 		o.Tag("ms-timestamps")
+	}
+	for _, w := range want {
+		for _, p := range w.pts {
+			if m := p.ts % 1000; m >= 1 && m <= 99 {
+				o.Tag("instant-ms-part:1-99")
+				break
+			}
+		}
 	}
 	if (esc && (len(want) > 0 || c.Kind == 4)) || (extreme && (npts > 0 || c.Kind == 3)) || len(want) >= 2 {
 		o.NonTrivial()
